@@ -73,11 +73,96 @@ def _is_ptr_type(t):
 # ------------------------------------------------------------------ scanners ---
 # each scanner yields findings (function, construct, node, message); it is the same code for /repo and for the canary
 
-def scan_sources(u):
+STAT_IDENTITY_FIELDS = ('st_dev', 'st_ino')
+KEYED = {'hashmap_get': 1, 'hashmap_put': 1, 'hashmap_delete': 1}       # function -> position of the key string
+
+
+def identity_key_functions(units):
+    """functions that turn a path into a FILE-IDENTITY key: they may call stat() and read st_dev/st_ino, because the numbers can reach nothing
+    but the comparison of two keys.  Derived, not named: F qualifies when
+      (a) every stat field F reads is st_dev/st_ino, each read is an argument of one string-building call (format) and that call's result is
+          what F returns (the numbers are not stored, printed, compared or returned in any other way), and
+      (b) every use of F in the whole program is a direct call, and the result of each call is the key argument of hashmap_get/put/delete, or
+          initialises a local variable every use of which is such a key argument.
+    Which two lookups name the same file is a fact of the file system the compiler is given (its input), like file_exists(); the VALUE of an inode
+    number is not, and under (a)+(b) it never reaches the output: R12.3 keeps the table order out of it."""
+    cand = set()
+    for u in units:
+        for fname, fd in u.functions.items():
+            reads = []
+            for n in fd.walk():
+                if n.kind == 'MemberExpr' and (n.name or '').startswith('st_'):
+                    base = n.inner[0] if n.inner else None
+                    if base is not None and 'stat' in (base.dtype or base.type or ''):
+                        reads.append(n)
+            if not reads or any(n.name not in STAT_IDENTITY_FIELDS for n in reads):
+                continue
+            ok = True
+            for n in reads:
+                p = n.parent
+                while p is not None and p.kind in ('ImplicitCastExpr', 'ParenExpr', 'CStyleCastExpr'):
+                    p = p.parent
+                if not (p is not None and p.kind == 'CallExpr' and p.callee() == 'format' and any(a.strip_all() is n for a in p.args())):
+                    ok = False; break
+                q = p.parent
+                while q is not None and q.kind in ('ImplicitCastExpr', 'ParenExpr'):
+                    q = q.parent
+                if not (q is not None and q.kind == 'ReturnStmt'):
+                    ok = False; break
+            if ok:
+                cand.add(fname)
+    out = set()
+    for f in cand:
+        ok, uses = True, 0
+        for u in units:
+            for fname, fd in u.functions.items():
+                for r in fd.walk():
+                    if not (r.kind == 'DeclRefExpr' and r.ref_kind == 'FunctionDecl' and r.ref_name == f):
+                        continue
+                    uses += 1
+                    c = r.parent
+                    while c is not None and c.kind in ('ImplicitCastExpr', 'ParenExpr'):
+                        c = c.parent
+                    if not (c is not None and c.kind == 'CallExpr' and c.callee() == f):
+                        ok = False; continue        # address taken
+                    if not _only_a_key(fd, c):
+                        ok = False
+        if ok and uses:
+            out.add(f)
+    return out
+
+
+def _is_key_arg(n):
+    """n (an expression node) is the key argument of a hashmap call"""
+    p = n.parent
+    while p is not None and p.kind in ('ImplicitCastExpr', 'ParenExpr'):
+        n, p = p, p.parent
+    if p is None or p.kind != 'CallExpr' or p.callee() not in KEYED:
+        return False
+    a = p.args()
+    i = KEYED[p.callee()]
+    return len(a) > i and a[i] is n
+
+
+def _only_a_key(fd, call):
+    if _is_key_arg(call):
+        return True
+    p = call.parent
+    while p is not None and p.kind in ('ImplicitCastExpr', 'ParenExpr'):
+        p = p.parent
+    if p is None or p.kind != 'VarDecl':
+        return False
+    uses = [r for r in fd.walk() if r.kind == 'DeclRefExpr' and r.ref_kind == 'VarDecl' and r.ref_id == p.id]
+    return bool(uses) and all(_is_key_arg(r) for r in uses)
+
+
+def scan_sources(u, idkeys=frozenset()):
     """R12.1 who-may-call"""
     for fname, fd in u.functions.items():
         for c in fd.calls():
             cal = c.callee()
+            if cal == 'stat' and fname in idkeys:
+                continue
             if cal in ALLOW and fname not in ALLOW[cal]:
                 yield (fname, 'calls-%s' % cal, c,
                        '%s() is called in %s: its value differs from run to run (process, time, environment or file-system state), and only %s may use it'
@@ -91,6 +176,8 @@ def scan_sources(u):
                     # the existence probe may tell a file from a directory: the file TYPE is part of "which files exist" (the input), unlike times,
                     # inode numbers, owners or sizes
                     ok = ok or (fname == 'file_exists' and n.name == 'st_mode')
+                    # which lookups name the same file is input too; the numbers themselves stay inside key comparisons (identity_key_functions)
+                    ok = ok or (fname in idkeys and n.name in STAT_IDENTITY_FIELDS)
                     if not ok:
                         yield (fname, 'reads-stat-%s' % n.name, n,
                                'file metadata field %s is read in %s: only timestamp_macro may read the modification time (for __TIMESTAMP__)' % (n.name, fname))
@@ -772,6 +859,8 @@ CANARY_EXPECT = [
     ('bad_clock', 'R12.1', 'sources', 'calls-clock'),
     ('bad_mtime', 'R12.1', 'sources', 'calls-stat'),
     ('bad_mtime', 'R12.1', 'sources', 'reads-stat-st_ino'),
+    ('bad_file_key', 'R12.1', 'sources', 'reads-stat-st_ino'),
+    ('bad_file_key', 'R12.1', 'sources', 'calls-stat'),
     ('init_macros', 'R12.1', 'time_flow', 'time-in-macro-__BUILD_ID__'),
     ('bad_ptr_format', 'R12.2', 'format', 'format-%p'),
     ('bad_ptr_as_int', 'R12.2', 'format', 'pointer-for-%d'),
@@ -787,7 +876,7 @@ CANARY_EXPECT = [
     ('bad_enum_range', 'R12.15', 'impl_defined', 'enum-signedness'),
 ]
 
-CANARY_SILENT = ('good_counter', 'good_print', 'file_exists', 'good_ld_assign', 'good_union_pun', 'good_enum_index')
+CANARY_SILENT = ('good_counter', 'good_print', 'file_exists', 'good_ld_assign', 'good_union_pun', 'good_enum_index', 'good_file_key', 'good_once')
 
 
 def load_canary(P):
@@ -813,7 +902,7 @@ def counter_bad(info):
 def run_canary(P, rep):
     cu = load_canary(P)
     got = {
-        'sources': [(f, c) for (f, c, n, m) in scan_sources(cu)],
+        'sources': [(f, c) for (f, c, n, m) in scan_sources(cu, identity_key_functions([cu]))],
         'time_flow': [(f, c) for (f, c, n, m) in scan_time_flow(cu) if not c.startswith('#')],
         'format': [(f, c) for (f, c, n, m) in scan_format(cu)],
         'ptr2int': [(f, c) for (f, c, n, m) in scan_ptr2int(cu)],
@@ -1095,13 +1184,16 @@ def run(P, rep, tier):
     units = [P.unit(n) for n in P.unit_names]
     # ---------------- R12.1
     allowed_seen = {}
+    idkeys = identity_key_functions(units)
+    for f in sorted(idkeys):
+        rep.ob('R12.1', 'identity-key:%s:inode-numbers-reach-key-comparisons-only' % f, True, '')
     for u in units:
         for fname, fd in u.functions.items():
             for c in fd.calls():
                 cal = c.callee()
                 if cal in ALLOW and fname in ALLOW[cal]:
                     allowed_seen.setdefault((u.name, fname), set()).add(cal)
-        for (fname, construct, node, msg) in scan_sources(u):
+        for (fname, construct, node, msg) in scan_sources(u, idkeys):
             src = construct[6:] if construct.startswith('calls-') else None
             gone = [a for a in ALLOW.get(src, ()) if a not in cg.defs] if src else ([] if 'timestamp_macro' in cg.defs else ['timestamp_macro'])
             if gone:
